@@ -23,6 +23,8 @@ def run(ctx):
     ctx.guarded('R06c', 'range hash', lambda: r06c(ctx))
     ctx.rule('R06d', 'hash functions carry no state across calls: with_salt is the one-shot keyed hash of its two parameters; the only thread-local in the hash crates is the scratch buffer of hash_node_sequence, cleared before every use')
     ctx.guarded('R06d', 'purity', lambda: r06d(ctx))
+    ctx.rule('R06e', 'the text hashed for an interior node is, per child, the core::fmt rendering `{:x} : {}\\n` of (child.hash(), child.len()) — the published construction, for every length')
+    ctx.guarded('R06e', 'merkledb::merklenode::hash_node_sequence', lambda: node_line(ctx))
 
 
 def r06a(ctx):
@@ -211,7 +213,8 @@ def r06d(ctx):
         clr = ac.calls('alloc::string::String::clear') + ac.calls('alloc::vec::Vec::clear')
         hc = ac.calls(CORE)
         if clr and hc and all(ac.cfg.must_pass(x, via_blocks=clr) for x in hc) and not c05_loop(ac, clr[0]):
-            wr = [c for c in ac.calls() if sg(ac.term(c).get('fn', '')).endswith('Write::write_fmt')]
+            wr = [c for c in ac.calls() if sg(ac.term(c).get('fn', '')).endswith('Write::write_fmt')
+                  or sg(ac.term(c).get('fn', '')) in ('alloc::string::String::push', 'alloc::string::String::push_str', 'alloc::string::String::insert_str', 'alloc::string::String::extend')]
             # a write inside a nested closure (`children.iter().for_each(|c| writeln!(buf, ..))`) happens where that closure
             # is handed to its consumer
             for cc in F.children(ch):
@@ -221,6 +224,44 @@ def r06d(ctx):
             okc = all(ac.cfg.must_pass(w, via_blocks=clr) for w in wr) and bool(wr)
     ctx.check(okc, 'R06d', h['qpath'], 'scratch cleared', '-', 'the thread-local buffer is cleared before it is filled and hashed (no bytes of an earlier call survive)',
               'the thread-local buffer of hash_node_sequence is not cleared before use: the hash depends on earlier calls')
+
+
+def node_line(ctx):
+    """C06c: the text hashed for an interior node has one line `<hash as lower hex> : <len in decimal>\\n` per child.
+    Decided only for lines produced by core::fmt from (child.hash(), child.len()); a hand-assembled line is reported as
+    not establishable (whether a digit loop prints every usize correctly is arithmetic, not structure)."""
+    F = ctx.F
+    h = F.body('merkledb::merklenode::hash_node_sequence')
+    bodies = []
+    for ch in F.children(h):
+        bodies.append(ch)
+        bodies += list(F.children(ch))
+    fmts, hand = [], []
+    for bdy in bodies:
+        ab = an(bdy)
+        for c in ab.calls():
+            fn = sg(ab.term(c).get('fn', ''))
+            if fn.endswith('fmt::Arguments::new') or fn.endswith('fmt::Arguments::new_v1') or fn.endswith('fmt::Arguments::new_const'):
+                fmts.append((ab, c))
+            if fn in ('alloc::string::String::push', 'alloc::string::String::push_str', 'alloc::string::String::insert_str', 'alloc::string::String::insert', 'alloc::vec::Vec::push', 'alloc::vec::Vec::extend_from_slice'):
+                hand.append((ab, c))
+    if not ctx.check(not hand, 'R06e', h['qpath'], 'line by core::fmt', hand[0][0].loc(hand[0][1]) if hand else '-', 'the node text is produced by core::fmt only (no hand-assembled pieces)',
+                     'the text hashed for an interior node is assembled by hand (%s): it cannot be established that it spells `{:x} : {}\\n` of (hash, len) for every length (e.g. more digits than a fixed buffer holds)'
+                     % (sg(hand[0][0].term(hand[0][1])['fn']).split('::')[-1] if hand else '')):
+        return
+    if not ctx.check(len(fmts) == 1, 'R06e', h['qpath'], 'one template', '-', 'one format template writes the line of a child'):
+        return
+    ab, c = fmts[0]
+    tpl = ab.arg(c, 0)
+    lit = ''.join(ch_ for ch_ in (tpl[1] if tpl[0] == 'str' else '') if ch_ == '\n' or (' ' <= ch_ <= '~'))
+    ctx.check(lit == ' : \n', 'R06e', h['qpath'], 'template', ab.loc(c), 'the literal text of the template is " : " and a newline', 'the literal text of the node line template is %r, the published construction has " : " and a newline' % lit)
+    args = ab.arg(c, 1) if len(ab.term(c)['args']) > 1 else ('?',)
+    els = [e for (_, e) in args[3]] if args[0] == 'agg' else []
+    def is_(e, fmt, getter):
+        return e[0] == 'call' and sg(e[1]).endswith('Argument::' + fmt) and e[2] and e[2][0][0] == 'call' and sg(e[2][0][1]) == 'merkledb::merklenode::MerkleNode::' + getter
+    ok = len(els) == 2 and is_(els[0], 'new_lower_hex', 'hash') and is_(els[1], 'new_display', 'len') and els[0][2][0][2] == els[1][2][0][2]
+    ctx.check(ok, 'R06e', h['qpath'], 'arguments', ab.loc(c), 'the line shows the child\'s hash in lower hex and then the same child\'s length in decimal',
+              'the node line is not `{:x}` of child.hash() followed by `{}` of child.len(): %s' % flow.show(args)[:120])
 
 
 def c05_loop(a, b):
